@@ -10,7 +10,9 @@ invariants instead of a reference:
       UDSRequest.parse_dynamic(req) (the two ways UDSClient hands a request to the matcher)
   I4  TCPUDSServerTransport.handle_client (real asyncio.StreamReader fed with the whole history as hex
       lines, minimal writer) consumes every line up to EOF - i.e. never drops the connection - and writes
-      exactly the replies that driving handle_request directly produces
+      exactly hex + LF of every reply that driving handle_request directly produces, and nothing else
+  I5  idle time is an input too: after 9.9 s / 10.0 s nothing changes, after 11 s (also followed by a
+      TesterPresent) the server behaves exactly like a freshly started one - same replies, same state fields
 
 I1-I3 are evaluated for every request of the alphabet in every state (state restored afterwards);
 I4 runs the alphabet as one long history behind the state's own history.
@@ -38,11 +40,14 @@ RULE = (
     "with/without suppress bit), every SID x payload lengths 3..8 (first byte as before for SIDs the model or ISO "
     "knows, three fill patterns), 4095 byte requests for every SID, structured ISO requests, every request gallia's "
     "own request classes serialise (all concrete UDSRequest subclasses, multi-identifier and suppress variants), keys "
-    "for the pending seed."
+    "for the pending seed; idle gaps (9.9 / 10.0 / 11 s, 11 s + TesterPresent) x representative requests (structured, "
+    "codec-serialised, keys and seeds of every SecurityAccess type, every session change, TesterPresent)."
 )
 ASSUMPTIONS = [
     "default behaviour switches (the property does not quantify over them)",
-    "virtual wall clock (1 s per request, no inactivity reset); SecurityAccess seeds from a seeded generator",
+    "virtual wall clock: 1 s per request in the per-state pass, idle gaps of 9.9 / 10.0 / 11 s before a representative "
+    "request set in every state, 11 s of silence after every 23rd request of the long history; SecurityAccess seeds "
+    "from a seeded generator",
     "helpers.parse_pdu is a pure function of (reply, request bytes): verdicts are memoised per worker",
     "handle_client is driven without an event loop: the callback and the StreamReader limit are those the transport's own "
     "run() hands to asyncio.start_server / start_unix_server (captured), the StreamReader is fed completely (all lines + EOF) before "
@@ -219,7 +224,84 @@ def explore_state(res: Result, cfg: dict[str, Any], st: tuple[Any, ...], hist: l
                     check_one(res, cfg, m, hist, ecu, q, w2, sent2)
                 ecu.restore(snap)
     if only is None:
+        idle_gaps(res, cfg, m, hist, ecu, snap, pre, where)
         long_history(res, cfg, m, hist, seq, where)
+
+
+def idle_requests(m: ref.Model, pre: tuple[Any, ...]) -> list[bytes]:
+    """representative requests sent after an idle gap: every structured / codec-serialised request, keys for the
+    pending seed and for every sendKey type of the model, every session change, TesterPresent with/without
+    suppress bit, requestSeed of every type."""
+    gen, _ = vc.codec_generated()
+    out = vc.structured(m) + gen + vc.dynamic(m, pre)
+    for t in sorted(m.sf_any.get(ref.SA, ())):
+        out += [bytes([0x27, t, 0x00]), bytes([0x27, t | 0x80, 0x00]), bytes([0x27, t])]
+    for t in sorted(m.sf_any.get(ref.DSC, ())):
+        out += [bytes([0x10, t]), bytes([0x10, t | 0x80])]
+    out += [bytes.fromhex("3e00"), bytes.fromhex("3e80")]
+    return list(dict.fromkeys(out))
+
+
+IDLE_GAPS = (9.9, 10.0, 11.0)
+
+
+def idle_gaps(res: Result, cfg: dict[str, Any], m: ref.Model, hist: list[Any], ecu: vc.Ecu, snap: tuple[Any, ...], pre: tuple[Any, ...], where: str) -> None:
+    """Idle time is part of the alphabet.  In the item's state every representative request is sent after 9.9 s,
+    10.0 s and 11 s of silence and as second step of 'silence, TesterPresent (with / without suppress bit), request'.
+    I1-I3 as usual; moreover the answer and everything the server keeps afterwards (public fields of server.state,
+    their set and the state's type) must be those of the same request(s) without the gap - sent in the item's state
+    for gaps up to 10 s, in the start state of a fresh server for longer ones (documented inactivity reset)."""
+    fresh = vc.Ecu(cfg)
+    fresh_snap = fresh.snapshot()
+    res.count("executions")
+
+    def run(e: vc.Ecu, sn: tuple[Any, ...], steps: list[tuple[bytes, float]]) -> tuple[Any, ...]:
+        e.restore(sn)
+        sent: bytes | None = None
+        try:
+            for q, gap in steps:
+                sent = e.request(q, gap=gap)
+            return ("ok", sent, type(e.srv.state).__name__, e.concrete())
+        except Exception as ex:  # noqa: BLE001 - I1
+            return ("raises", ex, None, None)
+        finally:
+            pass
+
+    for q in idle_requests(m, pre):
+        for gap in IDLE_GAPS:
+            for tp in (None, bytes.fromhex("3e00"), bytes.fromhex("3e80")):
+                if tp is not None and gap != 11.0:
+                    continue
+                steps = [(q, gap)] if tp is None else [(tp, gap), (q, 1.0)]
+                res.count("transitions", len(steps))
+                res.count("evaluations")
+                res.count("idle_gap_cases")
+                tag = f"gap={gap}" + ("" if tp is None else f"+{tp.hex()}")
+                w = f"{where} after {gap} s of silence" + ("" if tp is None else f" and {tp.hex()}")
+                rp = {"cfg": cfg, "hist": [list(e) for e in hist], "request": q.hex(), "mode": "idle", "gap": gap, "tp": tp.hex() if tp else None}
+                got = run(ecu, snap, steps)
+                if got[0] == "raises":
+                    e = got[1]
+                    res.violate(
+                        f"C14|raises|{type(e).__name__}|in={_innermost(e)}|sid={_cat(m, q[0])}|len={_lencls(q)}|idle-{tag}",
+                        f"handle_request raised {e!r} :: {w} request={q[:12].hex()}",
+                        rp,
+                    )
+                    continue
+                check_one(res, cfg, m, hist, ecu, q, w, got[1])
+                ref_steps = [(x, 1.0) for x, _ in steps]
+                want = run(fresh, fresh_snap, ref_steps) if gap > 10.0 else run(ecu, snap, ref_steps)
+                if want[0] == "raises":
+                    continue  # reported by the per-state pass of the state concerned
+                if got[1:] != want[1:]:
+                    what = "reply" if got[1] != want[1] else ("state-type" if got[2] != want[2] else "state-fields")
+                    res.violate(
+                        f"C14|idle|{'reset-state-differs-from-start-state' if gap > 10.0 else 'state-changed-without-reset'}|{what}|sid={_cat(m, q[0])}",
+                        f"reply {got[1].hex() if got[1] else None} / state {got[2]} {got[3]} but without the gap "
+                        f"{'from the start state' if gap > 10.0 else ''}: reply {want[1].hex() if want[1] else None} / state {want[2]} {want[3]} :: {w} request={q[:12].hex()}",
+                        rp,
+                    )
+    ecu.restore(snap)
 
 
 def long_history(res: Result, cfg: dict[str, Any], m: ref.Model, hist: list[Any], seq: list[bytes], where: str) -> None:
@@ -229,7 +311,8 @@ def long_history(res: Result, cfg: dict[str, Any], m: ref.Model, hist: list[Any]
     # direct
     b = vc.Ecu(cfg)
     b.play(hist)
-    vc.CLOCK.step = 0.5
+    # two clock readings per request: 1 s per request, and after every 23rd request 11 s of silence
+    vc.CLOCK.schedule(step=0.5, jump_every=46, jump=11.0)
     direct: list[bytes] = []
     broke_at: int | None = None
     try:
@@ -245,7 +328,7 @@ def long_history(res: Result, cfg: dict[str, Any], m: ref.Model, hist: list[Any]
                 direct.append(sent)
         res.seen("history_end_states", (cfg["name"], b.concrete()))
     finally:
-        vc.CLOCK.step = 0.0
+        vc.CLOCK.schedule()
     # through the TCP loop
     a = vc.Ecu(cfg)
     a.play(hist)
@@ -259,7 +342,7 @@ def long_history(res: Result, cfg: dict[str, Any], m: ref.Model, hist: list[Any]
     reader.feed_eof()
     writer = vc.FakeWriter()
     err = io.StringIO()
-    vc.CLOCK.step = 0.5
+    vc.CLOCK.schedule(step=0.5, jump_every=46, jump=11.0)
     vc.ENTROPY[0] = vc.G["entropy_real"][0]
     try:
         with contextlib.redirect_stderr(err):
@@ -271,12 +354,31 @@ def long_history(res: Result, cfg: dict[str, Any], m: ref.Model, hist: list[Any]
             rp,
         )
     finally:
-        vc.CLOCK.step = 0.0
+        vc.CLOCK.schedule()
     res.count("executions", 2)
     res.count("transitions", len(seq))
     left = vc.drive(reader.read())
-    lines = b"".join(writer.chunks).split(b"\n")
-    got = [bytes.fromhex(x.decode()) for x in lines if x]
+    wire = b"".join(writer.chunks)
+    lines = wire.split(b"\n")
+    tail = lines.pop()  # what follows the last LF: must be nothing
+    got: list[bytes] = []
+    bad_lines = 0
+    for ln in lines:
+        try:
+            if not ln:
+                raise ValueError("empty line")
+            got.append(bytes.fromhex(ln.decode("ascii")))
+        except ValueError:
+            bad_lines += 1
+            if bad_lines == 1:
+                res.violate(
+                    f"C14|handle_client|wire-format|{'empty-line' if not ln else 'not-hex'}",
+                    f"handle_client wrote the line {ln[:40]!r} (line #{len(got)} of {len(lines)}): every line must be the hex of one reply :: {where}",
+                    rp,
+                )
+    if tail:
+        res.violate("C14|handle_client|wire-format|unterminated-line", f"output does not end with LF: {tail[:40]!r} :: {where}", rp)
+    res.count("wire_lines_checked", len(lines))
     if left:
         n_left = left.count(b"\n")
         idx = len(seq) - n_left - 1
@@ -321,7 +423,9 @@ def replay(doc: dict[str, Any]) -> Result:
         print(f"    history: {q.hex()} -> {r.hex() if r else None}")
     st = ecu.abstract()
     print("    state:", st)
-    if doc.get("mode") == "history":
+    if doc.get("mode") == "idle":
+        idle_gaps(res, cfg, m, hist, ecu, ecu.snapshot(), st, f"model={cfg['name']} state={vc.ser(st)}")
+    elif doc.get("mode") == "history":
         _alpha, seq, _n = alphabet(cfg, m, st)
         long_history(res, cfg, m, hist, seq, f"model={cfg['name']} state={vc.ser(st)}")
     else:
